@@ -15,7 +15,7 @@
    Decimal.  PARTIAL: the magnitude / phase columns and the per-table use of
    the formatter are checked by the oracle on real reports. *)
 From Coq Require Import ZArith NArith List Bool Arith Reals.
-From PM Require Import Base.Num Base.RNum Base.Cplx Gen.Extracted Model.Format Model.Topology Model.Report Proofs.FormatP Proofs.FormatR Proofs.FormatT Proofs.ReportS Proofs.PeakP.
+From PM Require Import Base.Num Base.RNum Base.Cplx Gen.Extracted Model.Format Model.Topology Model.Report Proofs.FormatP Proofs.FormatR Proofs.FormatT Proofs.ReportS Proofs.PeakP Model.Env Proofs.EnvP.
 Import ListNotations.
 Local Open Scope R_scope.
 
@@ -113,3 +113,34 @@ Theorem C19_peak_bounds_the_instantaneous_field :
     (inst_sq x1 y1 x2 y2 x3 y3 theta <= Rsqr (@nf_peak RNum p1 p2))%R.
 Proof. exact peak_bounds_instant. Qed.
 Print Assumptions C19_peak_bounds_the_instantaneous_field.
+
+(* the ENVIRONMENT block (Model/Env.v, tied to environment_as_mininec / Medium.as_mininec by the correspondence stage `env`):
+   the lines of the block are the per-medium blocks in order; the block of the i-th of n media carries a HEIGHT line exactly
+   when it is not the first and an interface line exactly when it is not the last, so n media print n - 1 of each *)
+Theorem C19_env_blocks_in_order :
+  forall l : list med,
+    env_lines l = concat (map (fun im => block (length l) (fst im) (snd im)) (combine (seq 0 (length l)) l)).
+Proof. exact env_lines_blocks_proof. Qed.
+Print Assumptions C19_env_blocks_in_order.
+
+Theorem C19_env_height_of_all_but_the_first :
+  forall (n i : nat) m, In LHeight (block n i m) <-> (0 < i)%nat.
+Proof. exact block_height_proof. Qed.
+Print Assumptions C19_env_height_of_all_but_the_first.
+
+Theorem C19_env_interface_of_all_but_the_last :
+  forall (n i : nat) m, In LCoord (block n i m) <-> (S i < n)%nat.
+Proof. exact block_coord_proof. Qed.
+Print Assumptions C19_env_interface_of_all_but_the_last.
+
+Theorem C19_env_line_counts :
+  forall l : list med,
+    count_occ eline_eq_dec (env_lines l) LHeight = (length l - 1)%nat /\ count_occ eline_eq_dec (env_lines l) LCoord = (length l - 1)%nat.
+Proof. exact (fun l => conj (height_lines_proof l) (coord_lines_proof l)). Qed.
+Print Assumptions C19_env_line_counts.
+
+(* printing the height only where no interface line was printed loses the height of a middle medium *)
+Theorem C19_env_elif_refuted :
+  exists (n i : nat) m, (0 < i)%nat /\ ~ In LHeight (medium_lines_elif (m_ideal m) (m_rad m) (S i <? n)%nat (0 <? i)%nat).
+Proof. exact elif_refuted_proof. Qed.
+Print Assumptions C19_env_elif_refuted.
